@@ -253,6 +253,10 @@ func CombineLatestWith1[A, B any](obsB Observable[B]) func(Observable[A]) Observ
 			// 3: error
 			var status int32
 
+			// mu makes "store the value, read the others, emit" one step: without it two
+			// sources emitting at once deliver stale or reordered combinations.
+			var mu sync.Mutex
+
 			onUpdate := func(ctx context.Context, a *A, b *B) {
 				if atomic.LoadInt32(&status) < 2 {
 					if a == nil {
@@ -283,8 +287,10 @@ func CombineLatestWith1[A, B any](obsB Observable[B]) func(Observable[A]) Observ
 					subscriberCtx,
 					NewObserverWithContext(
 						func(ctx context.Context, v A) {
+							mu.Lock()
 							valueA.Store(&v)
 							onUpdate(ctx, &v, nil)
+							mu.Unlock()
 						},
 						func(ctx context.Context, err error) {
 							atomic.StoreInt32(&status, 3)
@@ -303,8 +309,10 @@ func CombineLatestWith1[A, B any](obsB Observable[B]) func(Observable[A]) Observ
 					subscriberCtx,
 					NewObserverWithContext(
 						func(ctx context.Context, v B) {
+							mu.Lock()
 							valueB.Store(&v)
 							onUpdate(ctx, nil, &v)
+							mu.Unlock()
 						},
 						func(ctx context.Context, err error) {
 							atomic.StoreInt32(&status, 3)
@@ -346,6 +354,10 @@ func CombineLatestWith2[A, B, C any](obsB Observable[B], obsC Observable[C]) fun
 			// 4: error
 			var status int32
 
+			// mu makes "store the value, read the others, emit" one step: without it two
+			// sources emitting at once deliver stale or reordered combinations.
+			var mu sync.Mutex
+
 			onUpdate := func(ctx context.Context, a *A, b *B, c *C) {
 				if atomic.LoadInt32(&status) < 3 {
 					if a == nil {
@@ -380,8 +392,10 @@ func CombineLatestWith2[A, B, C any](obsB Observable[B], obsC Observable[C]) fun
 					subscriberCtx,
 					NewObserverWithContext(
 						func(ctx context.Context, v A) {
+							mu.Lock()
 							valueA.Store(&v)
 							onUpdate(ctx, &v, nil, nil)
+							mu.Unlock()
 						},
 						func(ctx context.Context, err error) {
 							atomic.StoreInt32(&status, 4)
@@ -400,8 +414,10 @@ func CombineLatestWith2[A, B, C any](obsB Observable[B], obsC Observable[C]) fun
 					subscriberCtx,
 					NewObserverWithContext(
 						func(ctx context.Context, v B) {
+							mu.Lock()
 							valueB.Store(&v)
 							onUpdate(ctx, nil, &v, nil)
+							mu.Unlock()
 						},
 						func(ctx context.Context, err error) {
 							atomic.StoreInt32(&status, 4)
@@ -420,8 +436,10 @@ func CombineLatestWith2[A, B, C any](obsB Observable[B], obsC Observable[C]) fun
 					subscriberCtx,
 					NewObserverWithContext(
 						func(ctx context.Context, v C) {
+							mu.Lock()
 							valueC.Store(&v)
 							onUpdate(ctx, nil, nil, &v)
+							mu.Unlock()
 						},
 						func(ctx context.Context, err error) {
 							atomic.StoreInt32(&status, 4)
@@ -465,6 +483,10 @@ func CombineLatestWith3[A, B, C, D any](obsB Observable[B], obsC Observable[C], 
 			// 5: error
 			var status int32
 
+			// mu makes "store the value, read the others, emit" one step: without it two
+			// sources emitting at once deliver stale or reordered combinations.
+			var mu sync.Mutex
+
 			onUpdate := func(ctx context.Context, a *A, b *B, c *C, d *D) {
 				if atomic.LoadInt32(&status) < 4 {
 					if a == nil {
@@ -503,8 +525,10 @@ func CombineLatestWith3[A, B, C, D any](obsB Observable[B], obsC Observable[C], 
 					subscriberCtx,
 					NewObserverWithContext(
 						func(ctx context.Context, v A) {
+							mu.Lock()
 							valueA.Store(&v)
 							onUpdate(ctx, &v, nil, nil, nil)
+							mu.Unlock()
 						},
 						func(ctx context.Context, err error) {
 							atomic.StoreInt32(&status, 5)
@@ -523,8 +547,10 @@ func CombineLatestWith3[A, B, C, D any](obsB Observable[B], obsC Observable[C], 
 					subscriberCtx,
 					NewObserverWithContext(
 						func(ctx context.Context, v B) {
+							mu.Lock()
 							valueB.Store(&v)
 							onUpdate(ctx, nil, &v, nil, nil)
+							mu.Unlock()
 						},
 						func(ctx context.Context, err error) {
 							atomic.StoreInt32(&status, 5)
@@ -543,8 +569,10 @@ func CombineLatestWith3[A, B, C, D any](obsB Observable[B], obsC Observable[C], 
 					subscriberCtx,
 					NewObserverWithContext(
 						func(ctx context.Context, v C) {
+							mu.Lock()
 							valueC.Store(&v)
 							onUpdate(ctx, nil, nil, &v, nil)
+							mu.Unlock()
 						},
 						func(ctx context.Context, err error) {
 							atomic.StoreInt32(&status, 5)
@@ -563,8 +591,10 @@ func CombineLatestWith3[A, B, C, D any](obsB Observable[B], obsC Observable[C], 
 					subscriberCtx,
 					NewObserverWithContext(
 						func(ctx context.Context, v D) {
+							mu.Lock()
 							valueD.Store(&v)
 							onUpdate(ctx, nil, nil, nil, &v)
+							mu.Unlock()
 						},
 						func(ctx context.Context, err error) {
 							atomic.StoreInt32(&status, 5)
@@ -609,6 +639,10 @@ func CombineLatestWith4[A, B, C, D, E any](obsB Observable[B], obsC Observable[C
 			// 6: error
 			var status int32
 
+			// mu makes "store the value, read the others, emit" one step: without it two
+			// sources emitting at once deliver stale or reordered combinations.
+			var mu sync.Mutex
+
 			onUpdate := func(ctx context.Context, a *A, b *B, c *C, d *D, e *E) {
 				if atomic.LoadInt32(&status) < 5 {
 					if a == nil {
@@ -651,8 +685,10 @@ func CombineLatestWith4[A, B, C, D, E any](obsB Observable[B], obsC Observable[C
 					subscriberCtx,
 					NewObserverWithContext(
 						func(ctx context.Context, v A) {
+							mu.Lock()
 							valueA.Store(&v)
 							onUpdate(ctx, &v, nil, nil, nil, nil)
+							mu.Unlock()
 						},
 						func(ctx context.Context, err error) {
 							atomic.StoreInt32(&status, 6)
@@ -671,8 +707,10 @@ func CombineLatestWith4[A, B, C, D, E any](obsB Observable[B], obsC Observable[C
 					subscriberCtx,
 					NewObserverWithContext(
 						func(ctx context.Context, v B) {
+							mu.Lock()
 							valueB.Store(&v)
 							onUpdate(ctx, nil, &v, nil, nil, nil)
+							mu.Unlock()
 						},
 						func(ctx context.Context, err error) {
 							atomic.StoreInt32(&status, 6)
@@ -691,8 +729,10 @@ func CombineLatestWith4[A, B, C, D, E any](obsB Observable[B], obsC Observable[C
 					subscriberCtx,
 					NewObserverWithContext(
 						func(ctx context.Context, v C) {
+							mu.Lock()
 							valueC.Store(&v)
 							onUpdate(ctx, nil, nil, &v, nil, nil)
+							mu.Unlock()
 						},
 						func(ctx context.Context, err error) {
 							atomic.StoreInt32(&status, 6)
@@ -711,8 +751,10 @@ func CombineLatestWith4[A, B, C, D, E any](obsB Observable[B], obsC Observable[C
 					subscriberCtx,
 					NewObserverWithContext(
 						func(ctx context.Context, v D) {
+							mu.Lock()
 							valueD.Store(&v)
 							onUpdate(ctx, nil, nil, nil, &v, nil)
+							mu.Unlock()
 						},
 						func(ctx context.Context, err error) {
 							atomic.StoreInt32(&status, 6)
@@ -731,8 +773,10 @@ func CombineLatestWith4[A, B, C, D, E any](obsB Observable[B], obsC Observable[C
 					subscriberCtx,
 					NewObserverWithContext(
 						func(ctx context.Context, v E) {
+							mu.Lock()
 							valueE.Store(&v)
 							onUpdate(ctx, nil, nil, nil, nil, &v)
+							mu.Unlock()
 						},
 						func(ctx context.Context, err error) {
 							atomic.StoreInt32(&status, 6)
@@ -776,6 +820,10 @@ func CombineLatestAll[T any]() func(Observable[Observable[T]]) Observable[[]T] {
 			// n: not done
 			var status int32
 
+			// mu makes "store the value, read the others, emit" one step: without it two
+			// sources emitting at once deliver stale or reordered combinations.
+			var mu sync.Mutex
+
 			onUpdate := func(ctx context.Context) {
 				if atomic.LoadInt32(&status) > 0 {
 					result := make([]T, len(values))
@@ -818,8 +866,10 @@ func CombineLatestAll[T any]() func(Observable[Observable[T]]) Observable[[]T] {
 							subscriberCtx,
 							NewObserverWithContext(
 								func(ctx context.Context, v T) {
+									mu.Lock()
 									values[j].Store(&v)
 									onUpdate(ctx)
+									mu.Unlock()
 								},
 								func(ctx context.Context, err error) {
 									atomic.StoreInt32(&status, -1)
